@@ -291,6 +291,95 @@ impl<'a> Binder<'a> {
         Ok(())
     }
 
+    /// Common type of two UNION columns, when they differ and a lossless (or
+    /// the usual numeric) widening exists.
+    fn union_common_type(l: &ArrowDataType, r: &ArrowDataType) -> Option<ArrowDataType> {
+        use ArrowDataType as T;
+        let is_int = |t: &T| {
+            matches!(
+                t,
+                T::Int8 | T::Int16 | T::Int32 | T::Int64 | T::UInt8 | T::UInt16 | T::UInt32
+            )
+        };
+        let is_float = |t: &T| matches!(t, T::Float32 | T::Float64);
+        if l == r {
+            return None;
+        }
+        if matches!(l, T::Null) {
+            return Some(r.clone());
+        }
+        if matches!(r, T::Null) {
+            return Some(l.clone());
+        }
+        if (is_int(l) || is_float(l)) && (is_int(r) || is_float(r)) {
+            return Some(if is_float(l) || is_float(r) {
+                T::Float64
+            } else {
+                T::Int64
+            });
+        }
+        None
+    }
+
+    /// Cast the columns of either UNION branch that are narrower than the
+    /// common type of the pair. Branches whose types already agree (or have no
+    /// common type this function knows) are returned unchanged.
+    fn unify_union_branches(left: LogicalPlan, right: LogicalPlan) -> (LogicalPlan, LogicalPlan) {
+        let (ls, rs) = (left.schema(), right.schema());
+        let targets: Vec<Option<ArrowDataType>> = ls
+            .fields()
+            .iter()
+            .zip(rs.fields().iter())
+            .map(|(l, r)| Self::union_common_type(&l.data_type, &r.data_type))
+            .collect();
+        if targets.iter().all(|t| t.is_none()) {
+            return (left, right);
+        }
+        let cast_side = |plan: LogicalPlan, schema: &PlanSchema| -> LogicalPlan {
+            let needs = schema
+                .fields()
+                .iter()
+                .zip(targets.iter())
+                .any(|(f, t)| t.as_ref().is_some_and(|t| *t != f.data_type));
+            if !needs {
+                return plan;
+            }
+            let mut exprs = Vec::new();
+            let mut fields = Vec::new();
+            for (f, t) in schema.fields().iter().zip(targets.iter()) {
+                let col = Expr::Column(Column {
+                    relation: f.relation.clone(),
+                    name: f.name.clone(),
+                });
+                match t {
+                    Some(t) if *t != f.data_type => {
+                        exprs.push(Expr::Alias {
+                            expr: Box::new(Expr::Cast {
+                                expr: Box::new(col),
+                                data_type: t.clone(),
+                            }),
+                            name: f.name.clone(),
+                        });
+                        let mut nf = f.clone();
+                        nf.data_type = t.clone();
+                        nf.relation = None;
+                        fields.push(nf);
+                    }
+                    _ => {
+                        exprs.push(col);
+                        fields.push(f.clone());
+                    }
+                }
+            }
+            LogicalPlan::Project(crate::planner::ProjectNode {
+                input: Arc::new(plan),
+                exprs,
+                schema: PlanSchema::new(fields),
+            })
+        };
+        (cast_side(left, &ls), cast_side(right, &rs))
+    }
+
     fn bind_set_expr(&mut self, set_expr: &SetExpr) -> Result<LogicalPlan> {
         match set_expr {
             SetExpr::Select(select) => self.bind_select(select),
@@ -304,6 +393,25 @@ impl<'a> Binder<'a> {
             } => {
                 let left_plan = self.bind_set_expr(left)?;
                 let right_plan = self.bind_set_expr(right)?;
+
+                // Both sides of a set operation have the same number of
+                // columns; pairing them up by `zip` silently dropped the rest.
+                let (ln, rn) = (
+                    left_plan.schema().fields().len(),
+                    right_plan.schema().fields().len(),
+                );
+                if ln != rn {
+                    return Err(QueryError::Bind(format!(
+                        "each side of a set operation must have the same number of columns ({ln} vs {rn})"
+                    )));
+                }
+                // UNION columns take the common type of the two branches
+                // (BIGINT with DOUBLE is DOUBLE); the narrower branch is cast.
+                let (left_plan, right_plan) = if matches!(op, ast::SetOperator::Union) {
+                    Self::unify_union_branches(left_plan, right_plan)
+                } else {
+                    (left_plan, right_plan)
+                };
 
                 match op {
                     ast::SetOperator::Minus => {
